@@ -1,3 +1,5 @@
+import math
+
 import torch
 
 from torchlogix.packbitstensor import PackBitsTensor
@@ -18,14 +20,22 @@ class GroupSum(torch.nn.Module):
         super().__init__()
         if not k > 0:
             raise ValueError(f"The number of groups k must be positive, got {k}.")
+        self._check_tau(tau)
         self.k = k
         self.tau = tau
         self.beta = beta
         self.device = device
 
+    @staticmethod
+    def _check_tau(tau):
+        # tau = 0 divides by zero, tau < 0 reverses the ranking of the classes, NaN / inf erase the counts
+        if not 0 < tau < math.inf:
+            raise ValueError(f"tau must be positive and finite, got {tau}.")
+
     def forward(self, x):
         if isinstance(x, PackBitsTensor):
             return x.group_sum(self.k)
+        self._check_tau(self.tau)
 
         assert x.shape[-1] % self.k == 0, "The number of input features must be divisible by k."
 
@@ -46,9 +56,10 @@ class GroupSum(torch.nn.Module):
         #     raise ValueError(f"Unsupported input shape: {x.shape}")
         # the count is accumulated in float32 at least: bfloat16 / float16 cannot represent counts above 256 / 2048
         acc = torch.float32 if x.dtype in (torch.float16, torch.bfloat16) else None
-        return (
-            (x.reshape(*x.shape[:-1], self.k, x.shape[-1] // self.k).sum(-1, dtype=acc) + self.beta) / self.tau
-        )
+        counts = x.reshape(*x.shape[:-1], self.k, x.shape[-1] // self.k).sum(-1, dtype=acc) + self.beta
+        # divided in float64, where tau is the Python float it was given: a tau that float32 cannot represent (1e-46, 1e39) would
+        # be rounded to 0 or inf first (0 / 0 = NaN for an empty class, every score 0)
+        return (counts.to(torch.float64) / self.tau).to(torch.result_type(counts, 1.0))
 
     def extra_repr(self):
         return "k={}, tau={}".format(self.k, self.tau)
